@@ -3,7 +3,8 @@
 From Coq Require Import QArith List Bool Arith Lia Lqa Setoid.
 From SF Require Import Base.GeomAST Base.QKernel Base.Planar Model.SetOpSpec Model.OverlayComplex Model.OverlayRings
   Model.OverlayRenode Model.OverlayFixup Model.OverlayPipeline
-  Proofs.OverlayRenode_proofs Proofs.OverlayRenode_tree_proofs Proofs.OverlayRenode_ip_proofs Proofs.OverlayFixup_proofs.
+  Proofs.OverlayRenode_proofs Proofs.OverlayRenode_tree_proofs Proofs.OverlayRenode_ip_proofs Proofs.OverlayFixup_proofs
+  Proofs.OverlayComplex_proofs.
 Import ListNotations.
 Local Open Scope Q_scope.
 
@@ -1767,4 +1768,108 @@ Proof.
   split; [apply (extract_inter_nob ov HN)|].
   split; [apply (extract_same_nob ov _ _ HN incA_diff incA_union)|].
   apply (extract_same_nob ov _ _ HN incA_sym incA_union).
+Qed.
+
+(* ================================================================ (c) the extraction is symmetric in the labels *)
+(* swapping the two label bits of every cell of the complex (what exchanging the operands does to the LABELS; the
+   numbering of half edges and faces of overlay (b, a) also differs, which is not covered here) does not change what
+   union / intersection / symmetric difference extract *)
+Definition swap_ov (ov : overlay) : overlay :=
+  MkOv (ov_skel ov) (ov_verts ov) (ov_seqs ov) (ov_pre ov) (swap_c (ov_cx ov)).
+
+Lemma get_e_swap c i : get_e (swap_c c) i = option_map swap_e (get_e c i).
+Proof. unfold get_e, swap_c. cbn [c_edges]. apply nth_error_map. Qed.
+Lemma nE_swap c : nE (swap_c c) = nE c.
+Proof. unfold nE, swap_c. cbn [c_edges]. apply map_length. Qed.
+Lemma nF_swap c : nF (swap_c c) = nF c.
+Proof. unfold nF, swap_c. cbn [c_faces]. apply map_length. Qed.
+Lemma twin_face_swap c e : twin_face (swap_c c) (swap_e e) = twin_face c e.
+Proof. unfold twin_face. cbn [swap_e e_twin]. rewrite get_e_swap. destruct (get_e c (e_twin e)); reflexivity. Qed.
+Lemma adj_faces_swap c f : adj_faces (swap_c c) f = adj_faces c f.
+Proof.
+  unfold adj_faces. cbn [swap_c c_edges]. rewrite flat_map_concat_map, map_map, <- flat_map_concat_map.
+  apply flat_map_ext. intros e. cbn [swap_e e_face].
+  change (MkC (map swap_v (c_verts c)) (map swap_e (c_edges c)) (map swap_f (c_faces c))) with (swap_c c).
+  change (MkE (e_origin e) (e_twin e) (e_next e) (e_prev e) (e_face e) (lab_swap (e_srcEdge e))
+              (lab_swap (e_srcFace e)) (lab_swap (e_in e))) with (swap_e e).
+  rewrite twin_face_swap. reflexivity.
+Qed.
+Lemma sel_twin_face_swap o c e : o <> OpDiff -> sel_twin_face o (swap_c c) (swap_e e) = sel_twin_face o c e.
+Proof. intros H. unfold sel_twin_face. rewrite twin_face_in_swap. apply inc_swap. exact H. Qed.
+
+Section SwapSel.
+  Variables (o : setop) (c : complex).
+  Hypothesis Ho : o <> OpDiff.
+  Lemma expand_swap grp : expand o (swap_c c) grp = expand o c grp.
+  Proof.
+    unfold expand. rewrite (flat_map_ext _ _ (adj_faces_swap c)).
+    apply fold_left_ext. intros acc g. rewrite sel_face_swap by exact Ho. reflexivity.
+  Qed.
+  Lemma group_ok_swap g : group_ok o (swap_c c) g = group_ok o c g.
+  Proof.
+    unfold group_ok. rewrite (flat_map_ext _ _ (adj_faces_swap c)).
+    f_equal; apply forallb_ext_in; intros x _; rewrite sel_face_swap by exact Ho; reflexivity.
+  Qed.
+  Lemma face_group_swap s : face_group o (swap_c c) s = face_group o c s.
+  Proof. unfold face_group. rewrite nF_swap, (iter_ext _ _ expand_swap), group_ok_swap. reflexivity. Qed.
+  Lemma groups_from_swap fs : forall done, groups_from o (swap_c c) fs done = groups_from o c fs done.
+  Proof.
+    induction fs as [|f fs IH]; intros done; [reflexivity|]. cbn [groups_from]. rewrite sel_face_swap by exact Ho. rewrite face_group_swap.
+    destruct (sel_face o c f && negb (memb f done)); [|apply IH]. destruct (face_group o c f); [|reflexivity]. rewrite IH. reflexivity.
+  Qed.
+  Lemma polygon_groups_swap : polygon_groups o (swap_c c) = polygon_groups o c.
+  Proof. unfold polygon_groups. rewrite nF_swap. apply groups_from_swap. Qed.
+
+  Lemma rot_swap i : rot (swap_c c) i = rot c i.
+  Proof.
+    unfold rot. rewrite get_e_swap. destruct (get_e c i) as [e|]; [|reflexivity]. cbn [option_map swap_e e_prev].
+    rewrite get_e_swap. destruct (get_e c (e_prev e)); reflexivity.
+  Qed.
+  Lemma sweep_swap grp fuel : forall i, sweep (swap_c c) grp i fuel = sweep c grp i fuel.
+  Proof.
+    induction fuel as [|k IH]; intros i; [reflexivity|]. cbn [sweep]. rewrite get_e_swap.
+    destruct (get_e c i) as [e|]; [|reflexivity]. cbn [option_map swap_e e_face].
+    destruct (memb (e_face e) grp); [reflexivity|]. rewrite rot_swap. destruct (rot c i); [apply IH|reflexivity].
+  Qed.
+  Lemma ring_succ_swap grp i : ring_succ (swap_c c) grp i = ring_succ c grp i.
+  Proof.
+    unfold ring_succ. rewrite get_e_swap. destruct (get_e c i) as [e|]; [|reflexivity]. cbn [option_map swap_e e_twin].
+    rewrite rot_swap, nE_swap. destruct (rot c (e_twin e)); [apply sweep_swap|reflexivity].
+  Qed.
+  Lemma walk_ext (f g : nat -> option nat) : (forall i, f i = g i) -> forall fuel s cur, walk f s cur fuel = walk g s cur fuel.
+  Proof.
+    intros H. induction fuel as [|k IH]; intros s cur; [reflexivity|]. cbn [walk]. rewrite H.
+    destruct (g cur); [|reflexivity]. destruct (Nat.eqb n s); [reflexivity|]. rewrite IH. reflexivity.
+  Qed.
+  Lemma collect_ext (f g : nat -> option nat) : (forall i, f i = g i) -> forall fuel cands seen, collect f cands seen fuel = collect g cands seen fuel.
+  Proof.
+    intros H fuel. induction cands as [|x r IH]; intros seen; [reflexivity|]. cbn [collect].
+    destruct (memb x seen); [apply IH|]. rewrite (walk_ext f g H). destruct (walk g x x fuel); [|reflexivity]. rewrite IH. reflexivity.
+  Qed.
+  Lemma group_boundary_swap grp : group_boundary o (swap_c c) grp = group_boundary o c grp.
+  Proof.
+    unfold group_boundary, edges_ix. cbn [swap_c c_edges]. rewrite indexed_from_map.
+    apply filter_map_fst. intros ix. cbn [fst snd swap_e e_face].
+    change (MkC (map swap_v (c_verts c)) (map swap_e (c_edges c)) (map swap_f (c_faces c))) with (swap_c c).
+    change (MkE (e_origin (snd ix)) (e_twin (snd ix)) (e_next (snd ix)) (e_prev (snd ix)) (e_face (snd ix)) (lab_swap (e_srcEdge (snd ix)))
+                (lab_swap (e_srcFace (snd ix))) (lab_swap (e_in (snd ix)))) with (swap_e (snd ix)).
+    rewrite sel_twin_face_swap by exact Ho. reflexivity.
+  Qed.
+  Lemma group_rings_swap grp : group_rings o (swap_c c) grp = group_rings o c grp.
+  Proof.
+    unfold group_rings. rewrite group_boundary_swap, nE_swap. apply collect_ext. intros i. apply ring_succ_swap.
+  Qed.
+End SwapSel.
+
+Theorem extract_label_symmetric_lemma (o : setop) (ov : overlay) :
+  o <> OpDiff -> extract_geometry o (swap_ov ov) = extract_geometry o ov.
+Proof.
+  intros Ho. unfold extract_geometry.
+  assert (EA : extract_areals o (swap_ov ov) = extract_areals o ov).
+  { unfold extract_areals. cbn [swap_ov ov_cx]. rewrite (polygon_groups_swap o _ Ho).
+    destruct (polygon_groups o (ov_cx ov)) as [gs|]; [|reflexivity]. cbn [obind].
+    replace (map (polygon_rings o (swap_ov ov)) gs) with (map (polygon_rings o ov) gs); [reflexivity|].
+    apply map_ext. intros grp. unfold polygon_rings. cbn [swap_ov ov_cx]. rewrite (group_rings_swap o _ Ho). reflexivity. }
+  rewrite EA. unfold extract_linears, extract_points. cbn [swap_ov ov_cx].
+  destruct (select_comm_lemma o (ov_cx ov) Ho) as [_ [_ [L P]]]. rewrite L, P. reflexivity.
 Qed.
